@@ -22,6 +22,18 @@ fn arg_val(args: &[String], name: &str) -> Option<String> {
 
 pub fn main_with(props: Vec<PropDef>) -> i32 {
     install_panic_hook();
+    // a panic in the harness itself (not in a guarded library call) is a harness failure:
+    // inconclusive, never a verdict
+    match std::panic::catch_unwind(std::panic::AssertUnwindSafe(|| main_inner(props))) {
+        Ok(c) => c,
+        Err(_) => {
+            println!("INCONCLUSIVE harness panic: {}", last_panic());
+            2
+        }
+    }
+}
+
+fn main_inner(props: Vec<PropDef>) -> i32 {
     let args: Vec<String> = std::env::args().collect();
     if args.len() < 2 {
         eprintln!("usage: vcheck run|replay|list|serve ...");
@@ -96,7 +108,44 @@ pub fn main_with(props: Vec<PropDef>) -> i32 {
                 replay_dir,
                 scale,
             };
-            let out = run_property(def, &ctx, only.as_deref());
+            // seconds-long replay tier: saved shrunk inputs of earlier findings (regress/<id>-*.json)
+            let mut regress_ok = 0usize;
+            let mut regress_fail: Vec<(String, Fail)> = Vec::new();
+            if let Some(dir) = arg_val(&args, "--regress-dir") {
+                let mut files: Vec<_> = std::fs::read_dir(&dir).map(|d| d.filter_map(|e| e.ok()).map(|e| e.path()).collect()).unwrap_or_else(|_| Vec::new());
+                files.sort();
+                for path in files {
+                    let name = path.file_name().and_then(|n| n.to_str()).unwrap_or("").to_string();
+                    if !name.starts_with(&format!("{}-", id)) || !name.ends_with(".json") {
+                        continue;
+                    }
+                    let doc: Value = match std::fs::read_to_string(&path).ok().and_then(|s| serde_json::from_str(&s).ok()) {
+                        Some(v) => v,
+                        None => continue,
+                    };
+                    let subname = doc["subcheck"].as_str().unwrap_or("");
+                    if let Some(sub) = def.subs.iter().find(|s| s.name() == subname) {
+                        match sub.replay(&doc["case"]) {
+                            Ok(Ok(_)) => regress_ok += 1,
+                            Ok(Err(f)) => {
+                                if ctx.known.matches(&id, subname, &f.sig).is_none() {
+                                    regress_fail.push((path.to_string_lossy().to_string(), f));
+                                }
+                            }
+                            Err(_) => {}
+                        }
+                    }
+                }
+            }
+            for (path, f) in &regress_fail {
+                println!("DETAIL property={} profile={} regression-replay sig={} :: {}", id, profile, f.sig, f.msg);
+                println!("VIOLATION property={} replay={}", id, path);
+            }
+            let mut out = run_property(def, &ctx, only.as_deref());
+            out.evidence["coverage"]["regression_replays"] = serde_json::json!({"passed": regress_ok, "failed": regress_fail.len()});
+            if !regress_fail.is_empty() {
+                out.evidence["violations"] = serde_json::json!(out.violations.len() + regress_fail.len());
+            }
             if let Some(path) = arg_val(&args, "--out") {
                 if let Err(e) = std::fs::write(&path, serde_json::to_string_pretty(&out.evidence).unwrap()) {
                     eprintln!("cannot write {}: {}", path, e);
@@ -106,11 +155,18 @@ pub fn main_with(props: Vec<PropDef>) -> i32 {
             for l in &out.known_lines {
                 println!("{}", l);
             }
-            for v in &out.violations {
+            let (inconclusive, real): (Vec<_>, Vec<_>) = out.violations.iter().partition(|v| v.sig.starts_with("inconclusive:"));
+            for v in &inconclusive {
+                println!("INCONCLUSIVE property={} profile={} subcheck={} :: {}", id, profile, v.sub, v.msg);
+            }
+            if real.is_empty() && !inconclusive.is_empty() {
+                return 2;
+            }
+            for v in &real {
                 println!("DETAIL property={} profile={} subcheck={} sig={} :: {}", id, profile, v.sub, v.sig, v.msg);
                 println!("VIOLATION property={} replay={}", id, v.replay);
             }
-            if !out.violations.is_empty() {
+            if !real.is_empty() || !regress_fail.is_empty() {
                 return 1;
             }
             if !out.aborted.is_empty() {
